@@ -73,11 +73,20 @@ static int LK, LDIR, LIDX, HSREC[2]; static uint8_t *LAST_OTHER; static size_t L
 static int ladv(vn_rec *r) { if (r->dir != LDIR) { free(LAST_OTHER); LAST_OTHER = malloc(r->len); memcpy(LAST_OTHER, r->rec, r->len); LAST_OTHER_LEN = r->len; return 1; } int appidx = r->idx - HSREC[r->dir]; if (appidx != LIDX) return 1; switch (LK) { case L_DUP: return 2; case L_DROP: return 0; case L_SWAP: return -1; default: return 1; } }
 static void ladv_after(int dir, int idx) { if (LK == L_REFLECT && dir == LDIR && idx - HSREC[dir] == LIDX && LAST_OTHER) vn_inject(dir, LAST_OTHER, LAST_OTHER_LEN); }
 typedef struct { ep_t e; int done; size_t got; int bad, after_reject_data, rejected; } lep_t;
+/* an AUTHENTIC record of another content type in front of application record FT_IDX of direction FT_DIR, written by the sender itself with its
+   own write keys (a warning alert / a post-handshake handshake message): it consumes one sequence number on both sides, so the application
+   records behind it must still be delivered */
+static int FT_TYPE, FT_DIR, FT_IDX = -1;
+static int send_foreign(ep_t *e, TLS_CONNECT *c, int type) { static __thread uint8_t plain[64], rec[128]; size_t pl, rl = 0; uint8_t *seq = e->is_client ? c->client_seq_num : c->server_seq_num;
+	if (type == TLS_record_alert) { plain[0] = 1; plain[1] = 90; pl = 2; } else { plain[0] = e->proto == P_TLS13 ? 4 : 0; plain[1] = 0; plain[2] = 0; plain[3] = e->proto == P_TLS13 ? 6 : 0; memset(plain + 4, 0x5a, 6); pl = e->proto == P_TLS13 ? 10 : 4; }
+	if (e->proto == P_TLS13) { size_t el = 0; if (tls13_gcm_encrypt(e->is_client ? &c->client_write_key : &c->server_write_key, e->is_client ? c->client_write_iv : c->server_write_iv, seq, type, plain, pl, 0, rec + 5, &el) != 1) return -1; rec[0] = 23; rec[1] = 3; rec[2] = 3; rec[3] = (uint8_t)(el >> 8); rec[4] = (uint8_t)el; rl = 5 + el; }
+	else { uint8_t pr[80]; pr[0] = (uint8_t)type; pr[1] = (uint8_t)(c->protocol >> 8); pr[2] = (uint8_t)c->protocol; pr[3] = 0; pr[4] = (uint8_t)pl; memcpy(pr + 5, plain, pl); if (tls_record_encrypt(e->is_client ? &c->client_write_mac_ctx : &c->server_write_mac_ctx, e->is_client ? &c->client_write_enc_key : &c->server_write_enc_key, seq, pr, 5 + pl, rec, &rl) != 1) return -1; }
+	tls_seq_num_incr(seq); return tls_record_send(rec, rl, c->sock); }
 static size_t STREAM3[3] = { 5, 17, 40 };
 static int lep_task(void *arg) { lep_t *c = (lep_t *)arg; c->e.do_app = 0; c->e.do_close = 0; int r = ep_task(&c->e); c->done = c->e.hs_ret == 1; if (!c->done) return r; TLS_CONNECT *conn = c->e.conn_out;
 	/* both directions carry a 3-record stream; the client writes first, then reads; the server reads, then writes */
 	const uint8_t *mine = APPDATA[c->e.is_client ? 0 : 1], *theirs = APPDATA[c->e.is_client ? 1 : 0]; size_t total = STREAM3[0] + STREAM3[1] + STREAM3[2];
-	for (int phase = 0; phase < 2; phase++) { int sending = (phase == 0) == (c->e.is_client != 0); if (sending) { size_t off = 0; for (int i = 0; i < 3; i++) { ep_send(&c->e, conn, mine + off, STREAM3[i]); off += STREAM3[i]; } }
+	for (int phase = 0; phase < 2; phase++) { int sending = (phase == 0) == (c->e.is_client != 0); if (sending) { size_t off = 0; for (int i = 0; i < 3; i++) { if (FT_IDX == i && FT_DIR == (c->e.is_client ? 1 : 0)) send_foreign(&c->e, conn, FT_TYPE); ep_send(&c->e, conn, mine + off, STREAM3[i]); off += STREAM3[i]; } }
 		else { static __thread uint8_t rb[4096]; int calls = 0; while (c->got < total && calls < 12) { size_t g = 0; int rr = ep_recv(&c->e, conn, rb, sizeof rb, &g); calls++; if (rr == 1 && g) { if (c->rejected) c->after_reject_data = 1; if (c->got + g > total || memcmp(rb, theirs + c->got, g)) { c->bad = 1; break; } c->got += g; } else { c->rejected++; if (c->rejected > 3) break; } } } }
 	return r; }
 typedef struct { int status, c_done, s_done, c_bad, s_bad, c_after, s_after; size_t c_got, s_got; int hs[2]; } lout_t; static lout_t *LO; static side_creds LSRV[3], LCLI[3]; static char LFAIL[32];
@@ -107,7 +116,13 @@ static void blk_live(void) {
 			/* the property demands that replayed / reordered / deleted records are REJECTED (delivered bytes stay a prefix of the sent stream); it does not demand that the
 			   connection dies, so in-sequence records accepted after a rejected one are fine.  After a DROP nothing behind the gap may be delivered. */
 			(void)after; if (k == L_DROP && got > pre) { snprintf(key, sizeof key, "C11:live:%s:%s:record-accepted-behind-a-gap", PNAME[p], LN[k]); vh_viol(key, "\"dir\":\"%s\",\"record\":%d,\"got\":%zu,\"max\":%zu", dir ? "c2s" : "s2c", idx, got, pre); }
-			vh_sample("{\"block\":\"%s\",\"fault\":\"%s\",\"dir\":\"%s\",\"record\":%d,\"delivered\":%zu}", bn, LN[k], dir ? "c2s" : "s2c", idx, got); } }
+			vh_sample("{\"block\":\"%s\",\"fault\":\"%s\",\"dir\":\"%s\",\"record\":%d,\"delivered\":%zu}", bn, LN[k], dir ? "c2s" : "s2c", idx, got); }
+		/* authentic records of other content types between the application records */
+		static const int FT[] = { TLS_record_alert, TLS_record_handshake };
+		for (int dir = 0; dir < 2; dir++) for (int idx = 0; idx < 3; idx++) for (int t = 0; t < 2; t++) { if (!vh_next()) continue; LK = L_NONE; LIDX = -1; HSREC[0] = hs0; HSREC[1] = hs1; FT_TYPE = FT[t]; FT_DIR = dir; FT_IDX = idx; live_exec(p); FT_IDX = -1; int kk[4] = { p, dir, idx, 100 + t }; vh_eval(vh_hash(kk, sizeof kk, 37)); char key[160];
+			if (LFAIL[0]) { snprintf(key, sizeof key, "C11:live:%s:interleaved-%s:%s", PNAME[p], t ? "handshake-record" : "warning-alert", LFAIL); vh_viol(key, "\"dir\":\"%s\",\"before-record\":%d", dir ? "c2s" : "s2c", idx); continue; }
+			int bad = dir ? LO->s_bad : LO->c_bad; size_t got = dir ? LO->s_got : LO->c_got;
+			if (bad || got != 62) { snprintf(key, sizeof key, "C11:live:%s:interleaved-%s:%s", PNAME[p], t ? "handshake-record" : "warning-alert", bad ? "delivered-bytes-not-a-prefix-of-the-sent-stream" : "application-records-behind-it-not-delivered"); vh_viol(key, "\"dir\":\"%s\",\"before-record\":%d,\"delivered\":%zu,\"sent\":62", dir ? "c2s" : "s2c", idx, got); } } }
 }
 int main(int argc, char **argv) { vh_init(argc, argv); app_fill(); setup(); LO = mmap(NULL, sizeof *LO, PROT_READ | PROT_WRITE, MAP_SHARED | MAP_ANONYMOUS, -1, 0); for (int p = 0; p < 3; p++) if (build_side(&LSRV[p], p, 0, 1, NULL) != 1 || build_side(&LCLI[p], p, 1, 1, NULL) != 1) vh_harness_error("creds");
 	if (!freopen("/dev/null", "w", stderr)) {} blk_live(); blk_piecewise(); vh_guarded("C11", blk_cbc, 60); vh_guarded("C11", blk_gcm, 60); return vh_finish(); }
